@@ -248,7 +248,7 @@ def check_prototypes_survive(rep: Rep, pre: str, comp: Competition) -> None:
         # and nothing else in the loop rewrites label / predecessor of a prototype
         for e in comp.events:
             if e.kind == "store" and e.target[0] == "attr" and e.target[2] in ("pred", "predicted_label", "status") \
-                    and node_of(e.target[1]) and e.guards != u.event.guards:
+                    and node_of(e.target[1]) and facts(e.guards) != facts(u.event.guards):
                 rep.ev(pre + "KEEP-stray", e, False,
                        "store to a forest field outside the accepted branch may overwrite a prototype's state")
 
